@@ -346,15 +346,36 @@ func generateMore(suite string, seed uint64, i int, r *rng, id string, g gp) *Ca
 			c.Arg = map[string]any{"timeout_ms": 120000.0}
 		}
 		return c
-	case "c13": // rooted trees, any edge order
+	case "c13", "c13-big": // rooted trees, any edge order; big: 40..160 nodes, narrow and wide nodes mixed, small spacing
 		g.kind = 2
 		g.comps = false
 		g.names = 0
 		if r.chance(1, 6) {
 			g.maxN = 40
 		}
+		if suite == "c13-big" {
+			g.maxN = 160
+		}
 		edges, names := genGraph(r, g)
-		cfg := genCfg(r, cp{p1: []int{0, 1}, p2: []int{0, 1}, p4: []int{0, 1, 2, 3}, p5: []int{0}, nsPos: true, trace: true, mon: true}, names)
+		if suite == "c13-big" {
+			for len(names) < 40 {
+				edges, names = genGraph(r, g)
+			}
+		}
+		// NodeSpacing 0 is allowed in a part of the cases: coinciding points touch, they do not cross
+		cfg := genCfg(r, cp{p1: []int{0, 1}, p2: []int{0, 1}, p4: []int{0, 1, 2, 3}, p5: []int{0}, nsPos: !r.chance(1, 4), trace: true, mon: true}, names)
+		if suite == "c13-big" && cfg.P4 != 3 {
+			cfg.Fixed = nil
+			cfg.Sizes = map[string][]string{}
+			for _, nm := range names {
+				w := 10.0
+				if r.chance(1, 6) {
+					w = 200
+				}
+				cfg.Sizes[nm] = []string{fs(w), fs(20)}
+			}
+			cfg.NS = fs(10)
+		}
 		return lay(cfg, edges)
 	case "c14": // depth-first breaker on cyclic multigraphs; both breakers on acyclic ones
 		g.kind = []int{0, 4, 1, 1}[r.intn(4)]
